@@ -15,7 +15,7 @@ run_demo() {
     example) mkdir -p examples && cp "$demo" examples/seed_demo.rs && cargo run -q --offline --example seed_demo >$base/$id.demo.log 2>&1; rc=$?; rm -rf examples;;
     example-features) mkdir -p examples && cp "$demo" examples/seed_demo.rs && cargo run -q --offline --features "$FEATURES" --example seed_demo >$base/$id.demo.log 2>&1; rc=$?; rm -rf examples;;
     test) cp "$demo" tests/seed_demo.rs 2>/dev/null || { mkdir -p tests; cp "$demo" tests/seed_demo.rs; }; cargo test -q --offline ${FEATURES:+--features $FEATURES} --test seed_demo >$base/$id.demo.log 2>&1; rc=$?; rm -f tests/seed_demo.rs; rmdir tests 2>/dev/null;;
-    sh) sh "$demo" >$base/$id.demo.log 2>&1; rc=$?;;
+    sh) bash "$demo" >$base/$id.demo.log 2>&1; rc=$?;;
   esac
   return $rc
 }
